@@ -227,3 +227,52 @@ extern "C" void h_bounds(int n) {
 	sym_assert(bs.radius >= 0.0f, "C20-bounds-radius: negative radius");
 	sym_reach("end");
 }
+
+// recomputed shape bounds contain all *current* vertices: the shape's caches are filled first, then the vertices are
+// moved (same count) and the bounds recomputed.  kind 0: BSTriShape (vertex records + raw cache), 1: NiTriShapeData
+extern "C" void h_shape_bounds(int kind, int n) {
+	std::vector<Vector3> a(n), b(n);
+	for (int i = 0; i < n; i++) {
+		a[i] = sym_vec("a");
+		b[i] = sym_vec("b");
+		bounded(a[i].x, 16.0f);
+		bounded(a[i].y, 16.0f);
+		bounded(a[i].z, 16.0f);
+		bounded(b[i].x, 16.0f);
+		bounded(b[i].y, 16.0f);
+		bounded(b[i].z, 16.0f);
+	}
+	BoundingSphere bs;
+	if (kind == 0) {
+		BSTriShape s;
+		s.vertData.resize(n);
+		s.numVertices = (uint16_t) n;
+		for (int i = 0; i < n; i++)
+			s.vertData[i].vert = a[i];
+		s.UpdateRawVertices();
+		s.UpdateBounds();
+		for (int i = 0; i < n; i++)
+			s.vertData[i].vert = b[i];
+		s.UpdateBounds();
+		bs = s.GetBounds();
+	}
+	else {
+		NiTriShapeData d;
+		d.vertices = a;
+		d.numVertices = (uint16_t) n;
+		d.UpdateBounds();
+		d.vertices = b;
+		d.UpdateBounds();
+		bs = d.GetBounds();
+	}
+#ifdef SYM_NATIVE
+	float eps = 1e-2f;
+#else
+	float eps = 0.0f;
+#endif
+	for (int i = 0; i < n; i++) {
+		float d2 = (b[i].x - bs.center.x) * (b[i].x - bs.center.x) + (b[i].y - bs.center.y) * (b[i].y - bs.center.y) + (b[i].z - bs.center.z) * (b[i].z - bs.center.z);
+		sym_assert(d2 <= bs.radius * bs.radius + eps, "C20-shape-bounds: recomputed shape bounds do not contain a current vertex");
+	}
+	sym_reach("end");
+}
